@@ -1,6 +1,6 @@
 (* C16 — non-vacuity examples for the hypotheses of Props.v, and recorded witnesses *)
 From Coq Require Import ZArith List Bool Lia.
-From FV Require Import C16.Model C16.Proofs C16.Proofs2 C16.Proofs4.
+From FV Require Import C16.Model C16.Proofs C16.Proofs2 C16.Proofs4 C16.Proofs5.
 Import ListNotations.
 Open Scope Z_scope.
 
@@ -96,3 +96,19 @@ Example class_sequence_example :
   length gs = 3%nat /\ cpp_lookup gs 3 7 = Some (Some 20) /\ cpp_lookup gs 1 7 = Some (Some 10) /\ cpp_lookup gs 3 8 = Some None
   /\ cpp_lookup gs 5 7 = None.
 Proof. vm_compute. repeat split; reflexivity. Qed.
+
+(* two of three subtables split (2 and 3 pieces): 3 + (2-1) + (3-1) = 6 offsets *)
+Example split_count_example :
+  let f (p : Z) := if 1 <? p then Some (repeat 0 (Z.to_nat p)) else None in
+  split_count f [2; 1; 3] = 6 /\ zlen (split_all f [2; 1; 3]) = 6.
+Proof. vm_compute. split; reflexivity. Qed.
+(* insert_ligature(c0, [None, Some 7]) then (c1, [Some 8, None]): the anchor after a None stays on ITS component *)
+Example lig_insert_example :
+  match lig_insert [] 0 [None; Some 7] with
+  | Some cl => match lig_insert cl 1 [Some 8; None] with
+               | Some cl' => lig_get cl' 1 0 = Some 7 /\ lig_get cl' 0 0 = None /\ lig_get cl' 0 1 = Some 8 /\ lig_get cl' 1 1 = None
+               | None => False end
+  | None => False end.
+Proof. vm_compute. repeat split; reflexivity. Qed.
+Example lig_insert_panics : lig_insert [[]] 0 [None; Some 7] = None.
+Proof. reflexivity. Qed.
